@@ -142,7 +142,8 @@ private:
                         this->_scanline_length = ( this->_info._width * num_channels< rgba8_view_t >::value + 3 ) & ~3;
 
                         read_palette();
-                        _buffer.resize( _pitch );
+                        // read_bit_row loads a whole bit field at a pixel's first byte: keep the bytes behind the last one readable
+                        _buffer.resize( _pitch + sizeof( gray4_image_t::view_t::reference::bitfield_t ) - 1 );
 
                         _read_function = std::mem_fn(&this_t::read_4_bits_row);
 
